@@ -38,7 +38,10 @@ extern "C" void harness(void)
 #endif
   ExplicitTreeAut a, b; A.build(a); B.build(b);
   const bool sim = SEL & 1; const unsigned alg = SEL >> 1;
-  bool verdict = prepared_inclusion<ExplicitTreeAut>(a, b, alg == 0, alg >= 2, alg == 3, sim);
+#ifndef DIRECT
+#define DIRECT 0
+#endif
+  bool verdict = prepared_inclusion<ExplicitTreeAut>(a, b, alg == 0, alg >= 2, alg == 3, sim, DIRECT);
   bool expect = U::included<NA, NB>(A, B);
 #ifdef VS_SELFTEST_1
   expect = expect && !(A.pres[0] && !B.pres[0]);   // seeded wrong oracle
